@@ -254,7 +254,12 @@ def e2eClass (w : SigV4Spec.Wire) : String :=
         | _ => "sigv4-other"
     | _ => "sigv4-other"
 
-def judgeE2E (id : String) (ins outs : List String) : String :=
+def judgeE2E (id : String) (ins outs0 : List String) : String :=
+  -- `pre.at-eval` templates are signed when evaluated: the harness reports the query it actually sent as a 4th output
+  let (ins, outs) : List String × List String := match ins, outs0 with
+    | [kind, sink, ver, auth, m, p, _q, hn, hv, bmode, body, fnm, fvl, file, bd, aks, secs], [n1, n2, impl, sent] =>
+      ([kind, sink, ver, auth, m, p, "+" ++ sent, hn, hv, bmode, body, fnm, fvl, file, bd, aks, secs], [n1, n2, impl])
+    | _, _ => (ins, outs0)
   match ins, outs with
   | [kind, sink, ver, auth, m, p, q, hn, hv, bmode, body, fnm, fvl, _file, bd, aks, secs], [now1, now2, impl] =>
     match optHexDecode auth, hexDecode m, hexDecode p, optHexDecode q, listHexDecode hn, listHexDecode hv,
